@@ -149,7 +149,17 @@ def campaign(pid, plans):
         cases = [{"msgs": pl["msgs"], "prog": pl["prog"], "sched": s["sched"], "log": s["log"], "selects": s["selects"],
                   "procs": list(pl.get("crashers", ())), "attach": bool(pl.get("attach")),
                   "late": list(pl.get("late", ()))} for s in sch]
-        verdicts = replay(cases)
+        # in chunks: every schedule on which the selecting thread hangs costs 10 s; a change that breaks most of them is
+        # reported after the first few
+        verdicts = []
+        for off in range(0, len(cases), 12):
+            part = replay(cases[off:off + 12])
+            verdicts += part
+            if sum(1 for c, v in zip(cases[off:off + 12], part) if judge(c, v)[0]) >= 5:
+                cases = cases[:off + 12]
+                break
+        for i, c in enumerate(cases):
+            c["id"] = i
         nbad = 0
         for c, v in zip(cases, verdicts):
             replayed += 1
